@@ -20,13 +20,25 @@ From GenC09 Require Import EomProfile.
 Local Open Scope R_scope.
 
 (** * Tie: the generated profile is the template, for all inputs *)
+(* the argument of tanh / cosh is brought to the form z / w + d whatever way the source
+   spells it *)
+Ltac norm_arg z w d :=
+  repeat match goal with
+  | |- context [tanh ?a] =>
+      lazymatch a with (z / w + d) => fail | _ =>
+        replace a with (z / w + d) by (unfold Rdiv; ring) end
+  | |- context [cosh ?a] =>
+      lazymatch a with (z / w + d) => fail | _ =>
+        replace a with (z / w + d) by (unfold Rdiv; ring) end
+  end.
+
 Lemma profile_is_Phi pe z lo hi w d : fst (wallProfile pe z lo hi w d) = Phi lo hi w d z.
-Proof. unfold wallProfile, Phi. cbv zeta. cbn [fst]. unfold Rdiv. ring. Qed.
+Proof. unfold wallProfile, Phi. cbv zeta. cbn [fst]. norm_arg z w d. field. Qed.
 
 Lemma gradient_is_dPhi pe z lo hi w d : w <> 0 ->
   snd (wallProfile pe z lo hi w d) = dPhi lo hi w d z.
 Proof.
-  intros Hw. unfold wallProfile, dPhi. cbv zeta. cbn [snd].
+  intros Hw. unfold wallProfile, dPhi. cbv zeta. cbn [snd]. norm_arg z w d.
   generalize (cosh_neq_0 (z / w + d)); intro Hc. field. split; assumption.
 Qed.
 
